@@ -14,27 +14,27 @@ CLAIMS = {
         note='Trusts: the derivation enumerator (small, cross-checked against explicit-ambiguity counts), the restriction of the optimum clause to grammars without directly empty alternatives (as the statement says), inputs <= 8 symbols. setarch/ASLR is not controlled: id()-ordered containers are varied, not replayed.'),
     'C10': dict(
         category='exploration', design_ref='DESIGN.md §3 C10, §2.2',
-        technique='deterministic simulation: real threads under a seeded baton scheduler pre-empting at sys.settrace line events inside lark frames (random + PCT strategies, intercepted locks), call histories with injected interrupts / callback failures / abandoned generators; fresh-instance oracle',
+        technique='deterministic simulation: real threads under a seeded baton scheduler pre-empting at sys.settrace line events inside lark frames (random + PCT + burst strategies, intercepted locks, forced replay of recorded decisions), call histories with injected interrupts / callback failures / abandoned, closed, late-consumed and held-alive generators, worker pools under several PYTHONHASHSEEDs, salted LALR construction order; fresh-instance oracle',
         text='One shared Lark instance, 2-4 simulated caller threads whose interleaving a seeded scheduler decides at source-line granularity inside /repo/lark frames, plus single-thread call histories with faults (interrupt at the n-th line, failing callback, abandoned/closed generators) and other instances created meanwhile. Every completed call must equal the same call on a private fresh instance. Every failure replays from its recorded decision list. Samples schedules; a clean batch is evidence, not proof.',
         note='Pre-emption granularity is a source line inside lark frames (stdlib, re, pickle run atomically); races inside one line are invisible. Threads are real, only the choice of who runs is simulated. Corpus of ~17 grammar entries; texts <= 60 chars.'),
     'C11': dict(
         category='exploration', design_ref='DESIGN.md §3 C11, §2.4',
-        technique='deterministic simulation of a builder -> loader -> direct-build pipeline of real child interpreters with seeded, differing PYTHONHASHSEEDs and save/load/cache/standalone generations; transcripts compared',
+        technique='deterministic simulation of a builder -> loader -> direct-build pipeline of real child interpreters with seeded, differing PYTHONHASHSEEDs and save/load/cache/standalone (API, command line, compressed) generations over corpus and generated LALR grammars; transcripts of parse / scan / seeded interactive session trees compared',
         text='Seeded pipelines of process nodes: a builder saves / caches / generates the standalone module, loader nodes in other interpreters with other hash seeds restore them (chains of up to three generations, load-time options) and answer probe inputs through parse, interactive sessions and scan; a direct-build node answers the same probes. Transcripts must be identical. Scoped: the process/hash-seed/generation dimension is simulated, the grammar/input dimension is sampled from the corpus.',
         note='Grammar and input space limited to the corpus (built to touch every serialised field) and its sentence generator; no faults injected here (damaged artefacts are C12).'),
     'C12': dict(
         category='fault_enumeration', design_ref='DESIGN.md §3 C12, §2.3',
-        technique='deterministic simulation with fault injection: histories of process lifetimes against a simulated file system/disk (crash points, torn/short/lost writes, EIO/ENOSPC/EACCES on every FS call, byte corruption, splices, version/option/import skew, concurrent writers under the seeded scheduler); thorough tier enumerates truncation offsets, crash indices, failing FS calls and single-bit flips exhaustively for small entries',
+        technique='deterministic simulation with fault injection: histories of process lifetimes against a simulated file system/disk behind every seam lark.lark and lark.load_grammar can reach (FS.open, open, os, tempfile, sys): crash points with kill / power-loss aftermaths, short writes, errno per system call, path states (directory, read-only, unreadable), byte corruption, header-field damage, splices, version/option/import/base-directory skew, exceptions inside the load region, concurrent builders under the seeded scheduler; thorough tier enumerates truncation offsets, crash indices, failing FS calls and single-bit flips exhaustively for small entries',
         text='Histories of 2-8 process lifetimes running the real Lark(..., cache=...) against SimFS, faults placed inside operations; after every lifetime: constructor raised iff the uncached build raises, behaviour equals the uncached build, a hit only on bytes written completely for exactly this key, the file is repaired within one fault-free lifetime, no other path touched. Quick samples; thorough additionally enumerates every truncation offset, writer crash index, single failing FS call and single-bit flip for small corpus entries.',
         note='The disk is a model (deliberate superset of what ext4/xfs leave behind); atomicwrites branch not exercised (package absent); real OS processes racing on a real FS are not run.'),
     'C13': dict(
         category='exploration', design_ref='DESIGN.md §3 C13, §2.6',
-        technique='deterministic simulation: seeded scheduler over a tree of interactive sessions (fork / feed / rejected-token faults / lexer steps / resume) with a linear-replay reference model checked after every step for the moved session and all bystanders',
+        technique='deterministic simulation: seeded scheduler over a tree of interactive sessions (fork / feed / rejected-token faults aimed at LALR-merged lookaheads / lexer steps / resume) with reference models checked after every step for the moved session and all bystanders: linear never-forked replay, clean replay without the rejected tokens, manual stepping vs resume_parse, hand-written recovery vs on_error, trial feeding vs accepts(); worker pools under several PYTHONHASHSEEDs and salted LALR construction order',
         text='Seeded histories over a growing tree of InteractiveParser / ImmutableInteractiveParser sessions of one LALR instance (feeds, rejected tokens as faults, lexer steps, partial iter_parse, exhaust_lexer, resume_parse, copy, copy.copy, as_immutable/as_mutable, immutable feed/exhaust, forks of forks). After every step every live session must equal a never-forked linear replay of its own event list (public results always, internals when present); accepts() is compared with trial feeding of every terminal; hand-feeding equals parse(); resume equals parse. Samples histories; evidence, not proof.',
         note='Linear replay on the same instance is taken as the specification of a fork; grammars/texts from the corpus and sentence generator; <= 40 steps, <= 12 sessions per history.'),
     'C18': dict(
         category='exploration', design_ref='DESIGN.md §3 C18, §2.6',
-        technique='deterministic simulation: seeded histories of streams through one long-lived Indenter (complete, abandoned, closed, failing producer/consumer, DedentError, unbalanced brackets) against an executable indentation model and CPython tokenize',
+        technique='deterministic simulation: seeded histories of streams through one long-lived Indenter (complete, abandoned and dropped or held alive, closed, thrown into, failing producer/consumer, DedentError, unbalanced brackets, sources without final line break) against an executable indentation model and CPython tokenize',
         text='One Indenter object reused for seeded histories of streams that end normally or abnormally (consumer stops, generator closed or thrown into, producer raises, DedentError, parser error mid-stream, open brackets/levels at EOF), driven directly, through Lark(postlex=...) and through PythonIndenter + python.lark; every stream in the history must produce exactly the tokens of an independent model for that stream alone, balanced INDENT/DEDENT, DedentError exactly when the model says, nesting equal to CPython tokenize.',
         note='Model written from the statement (25 lines) and cross-checked against CPython tokenize on a generator restricted to pure-space or pure-tab indentation; <= 12 lines per stream.'),
 }
